@@ -283,6 +283,88 @@ let () =
       let oc = open_out_bin a.(3) in
       output_bytes oc out; close_out oc;
       Printf.printf "SOLVED %s secs=%.2f\n" cname (Sys.time () -. t0)
+  | "rules" ->
+      (* rules CLASS : stdin "RULES idx illegal" | "RULES idx incheck succ..." from the engine's
+         MoveGen; the MiniChess rules must say the same *)
+      let cname = a.(2) in
+      let cls = parse_class cname in
+      let k = List.length cls in
+      let n65 = pow65 k in
+      let n = ref 0 and bad = ref 0 and nmoves = ref 0 and nillegal = ref 0 and ncheck = ref 0 in
+      (try
+         while true do
+           let line = input_line stdin in
+           match String.split_on_char ' ' (String.trim line) with
+           | "RULES" :: idx :: rest ->
+               let idx = int_of_string idx in
+               incr n;
+               let w = idx < n65 in
+               let ds = digits_of_index k (idx mod n65) in
+               let p = pos_of ds w in
+               let ok =
+                 match rest with
+                 | ["illegal"] -> incr nillegal; wfb cls p && not (legalb cls p)
+                 | chk :: succ ->
+                     let succ = List.map int_of_string succ in
+                     let mine = List.sort compare (List.map (fun c -> index_of k n65 (digits_of c) c.wtm) (moves cls p)) in
+                     nmoves := !nmoves + List.length succ;
+                     if chk = "1" then incr ncheck;
+                     legalb cls p && in_check cls p = (chk = "1") && mine = succ
+                 | [] -> false in
+               if not ok then begin
+                 incr bad;
+                 if !bad <= 3 then Printf.printf "RULESFAIL %s engine: %s\n" (describe cname ds w) line
+               end
+           | _ -> ()
+         done
+       with End_of_file -> ());
+      Printf.printf "RULESCHECK %s n=%d illegal=%d incheck=%d moves=%d bad=%d\n" cname !n !nillegal !ncheck !nmoves !bad
+  | "failures" ->
+      (* failures CLASS DUMP LO HI : every placement with first digit in [LO,HI) that fails check_pos *)
+      let cname = a.(2) in
+      let cls = parse_class cname in
+      let k = List.length cls in
+      let n65 = pow65 k in
+      let b = read_dump a.(3) (2 * n65) in
+      let lo = int_of_string a.(4) and hi = int_of_string a.(5) in
+      let t = table_of k n65 b in
+      let sub = n65 / 65 in
+      let nbad = ref 0 in
+      for r = lo * sub to hi * sub - 1 do
+        let ds = digits_of_index k r in
+        List.iter (fun w ->
+          if not (check_pos cls t ds w) then begin
+            incr nbad;
+            let idx = index_of k n65 ds w in
+            Printf.printf "BAD %d %s engine=%s\n" idx (describe cname ds w) (string_of_tlabel (t ds w))
+          end) [true; false]
+      done;
+      Printf.printf "FAILURES %s first_digit=[%d,%d) bad=%d\n" cname lo hi !nbad
+  | "points" ->
+      (* points CLASS DUMP : stdin = dump indices (corpus of past failures); check_pos at each *)
+      let cname = a.(2) in
+      let cls = parse_class cname in
+      let k = List.length cls in
+      let n65 = pow65 k in
+      let b = read_dump a.(3) (2 * n65) in
+      let t = table_of k n65 b in
+      let n = ref 0 and bad = ref 0 in
+      (try
+         while true do
+           let line = String.trim (input_line stdin) in
+           if line <> "" then begin
+             let idx = int_of_string line in
+             incr n;
+             let ds = digits_of_index k (idx mod n65) in
+             if not (check_pos cls t ds (idx < n65)) then begin
+               incr bad;
+               Printf.printf "FAIL %d\n" idx;
+               explain cname cls k n65 b idx
+             end
+           end
+         done
+       with End_of_file -> ());
+      Printf.printf "POINTS %s n=%d bad=%d\n" cname !n !bad
   | "explain" ->
       let cname = a.(2) in
       let cls = parse_class cname in
